@@ -211,6 +211,6 @@ func (e *Exec) selectOp(g *Goroutine, fr *Frame, in *ssa.Select) bool {
 		}
 		res = append(res, rv)
 	}
-	fr.env[in] = res
+	fr.set(in, res)
 	return false
 }
